@@ -31,6 +31,7 @@ rounds = [
     (8, 'seeded8', 'EVAL-round8-first-contact.txt', 'EVAL-round8-on-head.txt'),
     (9, 'seeded9', 'EVAL-round9-first-contact.txt', 'EVAL-round9-on-head.txt'),
     (10, 'seeded10', 'EVAL-round10-first-contact.txt', 'EVAL-round10-on-head.txt'),
+    (11, 'seeded11', 'EVAL-round11-first-contact.txt', 'EVAL-round11-on-head.txt'),
 ]
 rows, summary = [], []
 for rnd, d, first, after in rounds:
